@@ -50,6 +50,7 @@
 //          threads_created / thread_ids_distinct   observation: did the OS recycle a std::thread::id
 // Nothing is decided here.
 #include <unistd.h>
+#include <atomic>
 #include <condition_variable>
 #include <fstream>
 #include <functional>
@@ -161,6 +162,7 @@ struct Strict
     std::string t(b, p);
     if (isd || t.size() > 18) out = Json(strtod(t.c_str(), nullptr));
     else out = Json((long long)strtoll(t.c_str(), nullptr, 10));
+    out.s = t;             // the token itself: counter values are compared exactly, as numerals
     return true;
   }
   bool value(Json &out)
@@ -225,6 +227,79 @@ struct Strict
     return true;
   }
 };
+
+// The decimal numeral of the NUMBER a JSON number token denotes, exactly (no floating point): "1e3", "1000.0" -> "1000";
+// a token that does not denote an integer -> "not-an-integer:<token>".
+static std::string numeralOf(const std::string &tok)
+{
+  size_t i = 0;
+  bool neg = false;
+  if (i < tok.size() && tok[i] == '-') { neg = true; ++i; }
+  std::string digits;
+  while (i < tok.size() && tok[i] >= '0' && tok[i] <= '9') digits += tok[i++];
+  long long shift = 0;
+  if (i < tok.size() && tok[i] == '.') {
+    ++i;
+    while (i < tok.size() && tok[i] >= '0' && tok[i] <= '9') { digits += tok[i++]; --shift; }
+  }
+  if (i < tok.size() && (tok[i] == 'e' || tok[i] == 'E')) {
+    ++i;
+    bool eneg = false;
+    if (i < tok.size() && (tok[i] == '+' || tok[i] == '-')) { eneg = tok[i] == '-'; ++i; }
+    long long ex = 0;
+    while (i < tok.size() && tok[i] >= '0' && tok[i] <= '9') { if (ex < 100000) ex = ex * 10 + (tok[i] - '0'); ++i; }
+    shift += eneg ? -ex : ex;
+  }
+  if (i != tok.size() || digits.empty()) return "not-an-integer:" + tok;
+  if (shift > 400) return "not-an-integer:" + tok;
+  if (shift >= 0) digits.append((size_t)shift, '0');
+  else {
+    size_t cut = (size_t)(-shift);
+    std::string frac = cut <= digits.size() ? digits.substr(digits.size() - cut) : std::string(cut - digits.size(), '0') + digits;
+    if (frac.find_first_not_of('0') != std::string::npos) return "not-an-integer:" + tok;
+    digits = cut < digits.size() ? digits.substr(0, digits.size() - cut) : std::string("0");
+  }
+  size_t nz = digits.find_first_not_of('0');
+  digits = nz == std::string::npos ? std::string("0") : digits.substr(nz);
+  return (neg && digits != "0" ? "-" : "") + digits;
+}
+
+// Symbolic names of spec/tracing/TraceLog.tla (HardPool): "@..." stands for a text that the specification does not spell.
+// textOf is injective; symbolOf maps a text found in the log back (any other text is reported as it is).
+static std::string textOf(const std::string &sym)
+{
+  if (sym.empty() || sym[0] != '@') return sym;
+  if (sym == "@quote") return "a\"b";
+  if (sym == "@quote-first") return "\"ab";
+  if (sym == "@quote-last") return "ab\"";
+  if (sym == "@backslash") return "a\\b";
+  if (sym == "@winpath") return "C:\\temp\\new";
+  if (sym == "@trailing-backslash") return "a\\";
+  if (sym == "@newline") return "a\nb";
+  if (sym == "@tab") return "a\tb";
+  if (sym == "@ctrl1") return "\x01";
+  if (sym == "@del") return "a\x7f";
+  if (sym == "@utf8") return "caf\xc3\xa9";
+  if (sym == "@slash") return "a/b";
+  if (sym.compare(0, 4, "@len") == 0) {
+    size_t n = (size_t)atoll(sym.c_str() + 4);
+    std::string t = "L" + std::to_string(n) + ":";
+    if (t.size() > n) t = std::string(n, 'y');
+    t.append(n - t.size(), 'x');
+    return t;
+  }
+  return "unknown symbol " + sym;
+}
+
+static std::string symbolOf(const std::string &text)
+{
+  static const char *const syms[] = {"@quote", "@quote-first", "@quote-last", "@backslash", "@winpath", "@trailing-backslash", "@newline", "@tab",
+                                     "@ctrl1", "@del", "@utf8", "@slash", "@len15", "@len16", "@len17", "@len255", "@len256", "@len257",
+                                     "@len1023", "@len1024", "@len1025", "@len4097", "@len65537"};
+  for (const char *sy : syms)
+    if (textOf(sy) == text) return sy;
+  return text;
+}
 
 // ---- one real thread per specification thread -----------------------------------
 struct Worker
@@ -295,7 +370,7 @@ struct Rec
 {
   char k;
   std::string name, cat;
-  long long val;
+  unsigned long long val;
 };
 
 struct World
@@ -366,7 +441,7 @@ struct World
         e.push(Json(std::string(1, r.k)));
         e.push(Json(r.name));
         e.push(Json(r.cat));
-        e.push(Json(r.val));
+        e.push(Json(r.k == 'C' ? std::to_string(r.val) : std::string()));
         one.push(e);
         if (r.k == 'C') counterNames.insert(r.name);
       }
@@ -389,15 +464,15 @@ struct World
     if (ph == "M") {
       r.push(e["name"].type == Json::Str ? e["name"] : Json(""));
       r.push(Json(""));
-      r.push(Json(0));
+      r.push(Json(""));
       return r;
     }
-    r.push(e["name"].type == Json::Str ? e["name"] : Json("<no name>"));
-    r.push(e["cat"].type == Json::Str ? e["cat"] : Json(""));
+    r.push(e["name"].type == Json::Str ? Json(symbolOf(e["name"].str())) : Json("<no name>"));
+    r.push(e["cat"].type == Json::Str ? Json(symbolOf(e["cat"].str())) : Json(""));
     const Json &v = e["args"]["value"];
-    if (v.type == Json::Int && v.i >= 0 && v.i <= 2147483647LL) r.push(v);
-    else if (v.type == Json::Null) r.push(Json(0));
-    else r.push(Json(-1)); // not an integer a recorded counter can carry (float, out of range)
+    if (v.type == Json::Int || v.type == Json::Dbl) r.push(Json(numeralOf(v.s)));   // exact, whatever the notation
+    else if (v.type == Json::Null) r.push(Json(""));
+    else r.push(Json("not-a-number"));
     return r;
   }
 
@@ -406,12 +481,16 @@ struct World
   Json saveLogOf(const Json &arg, tr::TraceRecorder *priv, const std::set<std::string> &counterNames)
   {
     char name[64];
-    snprintf(name, sizeof name, "/trace-%ld-%ld.json", (long)getpid(), counter++);
+    const bool samePath = arg.has("samepath") && arg["samepath"].boolean();   // every such save of the process goes to ONE file,
+    if (samePath) snprintf(name, sizeof name, "/trace-%ld-same.json", (long)getpid()); // which is neither removed nor truncated by the driver
+    else snprintf(name, sizeof name, "/trace-%ld-%ld.json", (long)getpid(), counter++);
     const std::string path = dir + name;
-    unlink(path.c_str());
-    const std::string pname = arg["pname"].str();
-    if (priv) priv->saveLog(path.c_str(), pname.empty() ? nullptr : pname.c_str());
-    else tr::saveLog(path.c_str(), pname.empty() ? nullptr : pname.c_str());
+    if (!samePath) unlink(path.c_str());
+    const bool emptyName = arg["pname"].str() == "@empty";                    // "" passed as a non-null pointer
+    const std::string pname = emptyName ? std::string() : textOf(arg["pname"].str());
+    const char *pn = emptyName ? "" : (pname.empty() ? nullptr : pname.c_str());
+    if (priv) priv->saveLog(path.c_str(), pn);
+    else tr::saveLog(path.c_str(), pn);
     std::string text;
     {
       std::ifstream f(path, std::ios::binary);
@@ -419,7 +498,7 @@ struct World
       ss << f.rdbuf();
       text = ss.str();
     }
-    unlink(path.c_str());
+    if (!samePath) unlink(path.c_str());
     Json o = Json::object();
     Json doc;
     Strict sp(text);
@@ -456,9 +535,9 @@ struct World
       if (!groups.count(tid)) { groups[tid] = Json::array(); order.push_back(tid); }
       Json ev = Json::object();
       ev.set("ph", ph);
-      if (ph == "E" ) { ev.set("name", ""); ev.set("cat", ""); ev.set("val", 0); }
+      if (ph == "E" ) { ev.set("name", ""); ev.set("cat", ""); ev.set("val", ""); }
       else if (ph == "C") { ev.set("name", r[2]); ev.set("cat", ""); ev.set("val", r[4]); }
-      else { ev.set("name", r[2]); ev.set("cat", r[3]); ev.set("val", 0); }   // B, i, and any unknown kind as it is
+      else { ev.set("name", r[2]); ev.set("cat", r[3]); ev.set("val", ""); }   // B, i, and any unknown kind as it is
       groups[tid].push(ev);
     }
     Json th = Json::array();
@@ -484,7 +563,8 @@ struct World
 
   Json sessionRecord(const std::string &a, const Json &arg)
   {
-    const long long r = arg["r"].num(), t = arg["t"].num(), val = arg["val"].num();
+    const long long r = arg["r"].num(), t = arg["t"].num();
+    const unsigned long long val = arg["val"].type == Json::Str ? strtoull(arg["val"].str().c_str(), nullptr, 10) : (unsigned long long)arg["val"].num();
     const std::string src = arg["src"].type == Json::Str ? arg["src"].str() : std::string();
     const std::string csrc = arg["csrc"].type == Json::Str ? arg["csrc"].str() : std::string();
     Session *ses = nullptr;
@@ -562,6 +642,14 @@ struct World
     uint64_t s = (uint64_t)prog["seed"].num() * 0x9E3779B97F4A7C15ull + 0x1234567ull + (uint64_t)t;
     if (prog["tname"].type == Json::Str && !prog["tname"].str().empty()) tr::setThreadName(prog["tname"].str().c_str());
     const long long memuse = prog["memuse"].num();
+    const long long pool = prog["pool"].num() > 0 ? prog["pool"].num() : 0;        // number of distinct names per kind (0: the small default pools)
+    const bool longNames = prog["longnames"].type == vj::Json::Bool && prog["longnames"].boolean();
+    static const size_t lens[] = {1, 15, 16, 17, 31, 32, 33, 255, 256, 257, 1023, 1024, 1025, 4097};
+    auto shape = [&](std::string &nm, uint64_t &st) {                               // pad a name to a length around a buffer size
+      if (!longNames) return;
+      size_t L = lens[rnd(st) % (sizeof lens / sizeof lens[0])];
+      if (nm.size() < L) nm.append(L - nm.size(), 'x');
+    };
     char buf[64];
     long long depth = 0;
     out.reserve((size_t)n);
@@ -578,8 +666,9 @@ struct World
       r.k = k;
       r.val = 0;
       if (k == 'B') {
-        snprintf(buf, sizeof buf, "t%lld.scope%u", t, (unsigned)(rnd(s) % 5));
+        snprintf(buf, sizeof buf, "t%lld.scope%u", t, (unsigned)(rnd(s) % (pool ? (uint64_t)pool : 5)));
         r.name = buf;
+        shape(r.name, s);
         r.cat = (rnd(s) & 1) ? "render" : "";
         tr::beginEvent(w.intern(r.name), w.intern(r.cat));
         ++depth;
@@ -587,14 +676,22 @@ struct World
         tr::endEvent();
         --depth;
       } else if (k == 'i') {
-        snprintf(buf, sizeof buf, "t%lld.mark%u", t, (unsigned)(rnd(s) % 3));
+        snprintf(buf, sizeof buf, "t%lld.mark%u", t, (unsigned)(rnd(s) % (pool ? (uint64_t)pool : 3)));
         r.name = buf;
+        shape(r.name, s);
         r.cat = (rnd(s) & 1) ? "" : "sync";
         tr::setMarker(w.intern(r.name), w.intern(r.cat));
       } else {
         snprintf(buf, sizeof buf, "t%lld.ctr%u", t, (unsigned)(rnd(s) % 2));
         r.name = buf;
-        r.val = (long long)(i % 2 ? i : (long long)(rnd(s) % 2147483647ull));
+        // counter values: every magnitude up to 2^64 - 1, and the neighbourhoods of 2^31, 2^32, 2^53, 2^63, 2^64
+        static const unsigned long long edge[] = {0ull, 1ull, 999999ull, 1000001ull, 2147483647ull, 2147483648ull, 2147483649ull, 4294967295ull,
+                                                  4294967296ull, 4294967297ull, 9007199254740991ull, 9007199254740993ull, 9223372036854775807ull,
+                                                  9223372036854775808ull, 9223372036854775809ull, 18446744073709551614ull, 18446744073709551615ull};
+        const unsigned pick = (unsigned)(rnd(s) % 4);
+        if (pick == 0) r.val = edge[rnd(s) % (sizeof edge / sizeof edge[0])];
+        else if (pick == 1) r.val = (unsigned long long)i;
+        else r.val = rnd(s) >> (rnd(s) % 64);
         tr::setCounter(w.intern(r.name), (uint64_t)r.val);
       }
       out.push_back(r);
@@ -612,13 +709,25 @@ struct World
       const Json &progs = arg["progs"];
       std::vector<std::vector<Rec>> recs(progs.size());
       for (size_t i = 0; i < progs.size(); ++i) worker((long long)i + 1); // all threads exist before any of them starts
+      // spin barrier: every thread is inside its job and released at the same moment, so the first events (the registration of the
+      // threads' lists in the recorder) really happen at the same time
+      std::atomic<int> arrived(0);
+      std::atomic<bool> go(false);
+      std::atomic<int> *ap = &arrived;
+      std::atomic<bool> *gp = &go;
       for (size_t i = 0; i < progs.size(); ++i) {
         Worker *w = &worker((long long)i + 1);
         std::vector<Rec> *out = &recs[i];
         const Json *pr = &progs[i];
         long long t = (long long)i + 1;
-        w->post([w, t, pr, out] { program(*w, t, *pr, *out); });
+        w->post([w, t, pr, out, ap, gp] {
+          ap->fetch_add(1);
+          while (!gp->load(std::memory_order_acquire)) {}
+          program(*w, t, *pr, *out);
+        });
       }
+      while (arrived.load() < (int)progs.size()) std::this_thread::yield();
+      go.store(true, std::memory_order_release);
       for (size_t i = 0; i < progs.size(); ++i) worker((long long)i + 1).wait();
       Json all = recJson(recs);
       o.set("rec", all);
@@ -701,15 +810,15 @@ struct World
       return o;
     }
     Worker &w = worker(t);
-    const std::string name = arg["name"].type == Json::Str ? arg["name"].str() : std::string();
-    const std::string cat = arg["cat"].type == Json::Str ? arg["cat"].str() : std::string();
-    const long long val = arg["val"].num();
+    const std::string name = arg["name"].type == Json::Str ? textOf(arg["name"].str()) : std::string();
+    const std::string cat = arg["cat"].type == Json::Str ? textOf(arg["cat"].str()) : std::string();
+    const unsigned long long val = arg["val"].type == Json::Str ? strtoull(arg["val"].str().c_str(), nullptr, 10) : (unsigned long long)arg["val"].num();
     Worker *wp = &w;
     if (a == "Begin") w.post([wp, name, cat] { tr::beginEvent(wp->intern(name), wp->intern(cat)); });
     else if (a == "End") w.post([] { tr::endEvent(); });
     else if (a == "Marker") w.post([wp, name, cat] { tr::setMarker(wp->intern(name), wp->intern(cat)); });
     else if (a == "Counter") {
-      counterNames.insert(name);
+      counterNames.insert(arg["name"].str());   // as the log reader reports it (symbol for a symbolic name)
       w.post([wp, name, val] { tr::setCounter(wp->intern(name), (uint64_t)val); });
     } else if (a == "SetName") w.post([name] { tr::setThreadName(name.c_str()); });
     else if (a == "MemUse") w.post([] { tr::recordMemUse(); });
